@@ -310,6 +310,61 @@ def run_listing_with_meta(ctx, n):
         ctx.corr("Tree.fromList(hash_name)~Tree.from_list", p[0], p[6] if p[5] == "ok" else {"err": p[6]}, model)
 
 
+def run_lazy_persist(ctx, n):
+    """the SQLite-backed form also persists what lazy loading wrote: the children of a directory object and the entry's
+    loaded flag read back after commit / close / reopen exactly as the live index held them"""
+    from . import c17
+
+    rng = ctx.rng
+    for _ in range(n):
+        case = c17.gen_case(rng)
+        case["sqlite"], case["existence_index"] = True, False
+        case["reopen"] = rng.choice([None, "before"])
+        how = rng.choice(["iter", "ls", "get", "load"])
+        root = ctx.mkdtemp()
+        L, E, flat, listings, odb, files, lazy = c17.build_indexes(case, root)
+        reopen = c17.build_indexes.reopen
+        c = {"lazy_persist": case, "trigger": how}
+        ctx.case(c)
+        ctx.count("lazy_persist:%s reopen_first=%s" % (how, case["reopen"]))
+
+        def snap(idx):
+            out = []
+            for k in idx:
+                e = idx._trie.get(k)
+                out.append(["/".join(k), _entry_proj(e)])
+            return sorted(out)
+
+        def f():
+            nonlocal L
+            if case["reopen"]:
+                L = reopen(L, "lazy")
+            d = sorted(lazy)[0]
+            if how == "iter":
+                list(L.iteritems(prefix=d))
+            elif how == "ls":
+                list(L.ls(d, detail=False))
+            elif how == "get":
+                L[d + sorted(lazy[d])[0]]
+            else:
+                L.load()
+            live = snap(L)
+            L = reopen(L, "lazy", storage=False)
+            return live, snap(L)
+
+        kind, v = safe_call(f)
+        ok = kind == "ok" and v[0] == v[1]
+        ctx.oracle(ok, c, {"why": "the lazily loaded SQLite-backed index reads back differently after commit/close/reopen",
+                           "impl": v if kind != "ok" else [x for x in v[0] if x not in v[1]][:4]})
+        for idx in (L, E):
+            safe_call(idx.close)
+
+
+def _entry_proj(e):
+    h = e.hash_info
+    return {"meta": _md(e.meta), "hash": [h.name, h.value] if h else None, "loaded": e.loaded}
+
+
 def _md(m):
     from .c03 import _meta_dict
 
@@ -321,7 +376,7 @@ def run(ctx):
         "entries with every combination of optional fields (None / default / falsy strings / zero sizes / '.dir' hashes / "
         "loaded in {None,True,False}), non-ASCII and odd key parts; indexes of 1-6 entries through write_json/read_json, "
         "write_db/read_db and the SQLite-backed index with set/overwrite-one-field/delete histories, commit, close, (often: another SQLite-backed index written under the same keys), reopen "
-        "(incl. the root key); listings written with metadata for md5 / md5-dos2unix / etag / checksum. "
+        "(incl. the root key); listings written with metadata for md5 / md5-dos2unix / etag / checksum; SQLite-backed indexes with unloaded directory objects loaded on demand (iteration, listing, lookup, load) then committed, closed and reopened. "
         "non-trivial = entry has meta or hash / index has >= 2 entries; distinct = sha256 of the canonical case"
     )
     ctx.assumptions = ["Meta() and None both project to {} (an all-default Meta serialises to no field)",
@@ -329,12 +384,14 @@ def run(ctx):
     run_dicts(ctx, ctx.n(600, 6000))
     run_indexes(ctx, ctx.n(120, 1200))
     run_listing_with_meta(ctx, ctx.n(150, 1500))
+    run_lazy_persist(ctx, ctx.n(40, 400))
 
 
 def search(ctx):
     run_dicts(ctx, 6000)
     run_indexes(ctx, 1000)
     run_listing_with_meta(ctx, 1500)
+    run_lazy_persist(ctx, 400)
 
 
 def replay(ctx, payload):
